@@ -564,6 +564,8 @@ def run(ctx) -> None:
     # ---------------------------------------------------------------- R14.8
     r8 = ctx.rule("R14.8", "group weights, sea/anti-sea completion and cache key", min_instances=4)
     wa = idx.function(TET, "TetraWeights.weights_all_band_groups")
+    from ..sem import inline_private_helpers as _iph14, loopify_comprehensions as _lc14
+    wa = _iph14(idx, _lc14(idx, wa))
     t = norm(wa.node).replace(" ", "")
     r8.instance(f"{wa.short}: group mean")
     AS = Sem(idx, wa)
@@ -592,6 +594,9 @@ def run(ctx) -> None:
     tw_cls_ = idx.cls(TET, "TetraWeights")
     if check_memo_results_not_mutated(r8, idx, tw_cls_) == 0:
         r8.ok("no in-place update of an array handed out by the per-band weight cache")
+    if not cands:
+        r8.expect(False, "", wa, wa.node, "weights_all_band_groups: no store of a per-group weight `W[(ib1, ib2)] = …` (loop or dict comprehension) found, also not in inlined helpers")
+        okmean = True
     r8.check(okmean,
              "group weight = mean of the member bands' weights × band-selection weight", wa, wa.node,
              "the weight of a degenerate group is not the mean over exactly its bands [ib1, ib2)", stmt="group mean")
